@@ -101,24 +101,33 @@ impl TryFrom<&str> for FeelYearsAndMonthsDuration {
   fn try_from(value: &str) -> Result<Self, Self::Error> {
     if let Some(captures) = RE_YEARS_AND_MONTHS.captures(value) {
       let mut is_valid = false;
-      let mut total_months = 0_i64;
+      let mut total_months = 0_i128;
       if let Some(years_match) = captures.name("years") {
-        if let Ok(years) = years_match.as_str().parse::<u64>() {
-          total_months += (years as i64) * MONTHS_IN_YEAR;
-          is_valid = true;
+        match years_match.as_str().parse::<u64>() {
+          Ok(years) => {
+            total_months += (years as i128) * (MONTHS_IN_YEAR as i128);
+            is_valid = true;
+          }
+          Err(_) => return Err(err_invalid_years_and_months_duration_literal(value)),
         }
       }
       if let Some(months_match) = captures.name("months") {
-        if let Ok(months) = months_match.as_str().parse::<u64>() {
-          total_months += months as i64;
-          is_valid = true;
+        match months_match.as_str().parse::<u64>() {
+          Ok(months) => {
+            total_months += months as i128;
+            is_valid = true;
+          }
+          Err(_) => return Err(err_invalid_years_and_months_duration_literal(value)),
         }
       }
       if captures.name("sign").is_some() {
         total_months = -total_months;
       }
       if is_valid {
-        return Ok(FeelYearsAndMonthsDuration(total_months));
+        // the duration must fit the representable range
+        if let Ok(months) = i64::try_from(total_months) {
+          return Ok(FeelYearsAndMonthsDuration(months));
+        }
       }
     }
     Err(err_invalid_years_and_months_duration_literal(value))
